@@ -981,6 +981,19 @@ pub mod persist {
                     })?
                     .0;
             let opts = VfsOptions::restore(&state.options)?;
+            // The global id mapping is fixed when the Vfs is created (Vfs::new) and is not reachable through
+            // &self: refuse a state whose global mapping is not the one this instance translates with,
+            // before anything is restored.
+            let global = match opts.id_mapping.2 {
+                0 => None,
+                _ => Some(opts.id_mapping),
+            };
+            if global != self.id_mapping {
+                return Err(VfsError::Persist(
+                    "id_mapping of the saved state differs from the one this Vfs was created with"
+                        .to_owned(),
+                ));
+            }
             self.initialized
                 .store(!opts.in_opts.is_empty(), Ordering::Release);
             self.opts.store(Arc::new(opts));
